@@ -239,6 +239,8 @@ class Repo:
         f = call.func
         if isinstance(f, ast.Name):
             local = fi.flow.is_local(f.id) if fi is not None else False
+            if local and f.id in fi.flow.local_imports:
+                return CallTarget("ext", fi.flow.local_imports[f.id])
             if local:
                 if fi.cls and fi.is_classmethod and fi.positional_params and f.id == fi.positional_params[0]:
                     init = module.functions.get(fi.cls + ".__init__")
@@ -253,6 +255,8 @@ class Repo:
             if dotted:
                 head = dotted.split(".")[0]
                 is_local = fi.flow.is_local(head) if fi is not None else False
+                if is_local and head in fi.flow.local_imports:
+                    return CallTarget("ext", fi.flow.local_imports[head] + dotted[len(head):])
                 if not is_local and head in module.imports and module.imports[head][0] == "ext":
                     base = module.imports[head][1]
                     return CallTarget("ext", base + dotted[len(head):])
